@@ -270,7 +270,9 @@ def main():
                 run.main()
             else:
                 import jellyfysh.resume as resume
-                sys.argv = ["jellyfysh-resume", spec["dump"]]
+                # optional command-line variants of resume.py: -vv (DEBUG logging, update_logging() on the restored
+                # objects), --no-output (dummy output handlers); the committed events must not depend on them
+                sys.argv = ["jellyfysh-resume", spec["dump"]] + list(spec.get("argv") or [])
                 resume.main()
     except StopTwin:
         pass
@@ -301,6 +303,14 @@ def main_c20(mode, spec):
         with contextlib.redirect_stdout(io.StringIO()):
             cfg = scenario.build_config(spec["scenario"], spec["workdir"])
             random.seed(f"twin:{spec['seed']}")
+            if spec.get("debug_logging"):
+                # as `jellyfysh -vv --logfile /dev/null`: the mediator's and the workers' DEBUG branches run
+                import logging
+                root = logging.getLogger("")
+                handler = logging.StreamHandler(open(os.devnull, "w"))
+                handler.setLevel(logging.DEBUG)
+                root.setLevel(logging.DEBUG)
+                root.addHandler(handler)
             mediator, _ = scenario.build_mediator(cfg)
             from jellyfysh.base.exceptions import EndOfRun
             try:
